@@ -472,7 +472,7 @@ func TestC17ClientAdoption(t *testing.T) {
 				ok = w.c.VerifSyncOnce(0)
 			}()
 			ev.Eval(1)
-			if !w.c.VerifTryLock() {
+			if !clientLockFree(w.c) {
 				w.fail("client mutex held after the round")
 			}
 			wantOK := why == "" && anyEligible
